@@ -98,7 +98,7 @@ def typename(key):
     return key.title()
 
 
-def ekf_driver(d, ns):
+def ekf_driver(d, ns, cal_per_point=False):
     st, ca, ct = sorted(d["state"]), sorted(d["calibration"]), sorted(d["control"])
     n = len(st)
     cal = dict((k, v) for k, v in d["calmap"])
@@ -124,7 +124,7 @@ def ekf_driver(d, ns):
     if ca:
         A("    CalibrationOptions co;")
         for c in ca:
-            A(f"    co.{c} = {float(cal[c])!r};")
+            A(f"    co.{c} = rd();" if cal_per_point else f"    co.{c} = {float(cal[c])!r};")
         A("    Calibration cal(co);")
         cal_arg = ", cal"
     ctl_arg = ""
@@ -186,7 +186,7 @@ def ekf_driver(d, ns):
     return "\n".join(L) + "\n"
 
 
-def ekf_input(d, points):
+def ekf_input(d, points, cal_per_point=False):
     """points: list of dict(dt, x{name}, P[[...]] name order, u{name}, z{key: {reading: value}})"""
     st, ct = sorted(d["state"]), sorted(d["control"])
     toks = [str(len(points))]
@@ -194,6 +194,9 @@ def ekf_input(d, points):
         toks.append(repr(float(pt["dt"])))
         toks += [repr(float(pt["x"][s])) for s in st]
         toks += [repr(float(v)) for r in pt["P"] for v in r]
+        if cal_per_point:  # calibration values are read right after the covariance (the order the driver constructs things in)
+            cal0 = dict((k, v) for k, v in d["calmap"])
+            toks += [repr(float(pt.get("cal", cal0)[c])) for c in sorted(d["calibration"])]
         toks += [repr(float(pt["u"][c])) for c in ct]
         for key, rs in sorted(d["sensors"]):
             for r in sorted(r for r, _ in rs):
@@ -218,7 +221,7 @@ def parse(stdout):
     return out
 
 
-def build_and_run_ekf(d, cfg, points, extra_flags=()):
+def build_and_run_ekf(d, cfg, points, extra_flags=(), cal_per_point=False):
     """returns dict(ok, stage, error, results)"""
     ns = "gen"
     with Scratch() as sc:
@@ -231,12 +234,12 @@ def build_and_run_ekf(d, cfg, points, extra_flags=()):
             return {"ok": False, "stage": "generate", "error": f"compile_ekf returned {r}"}
         drv = os.path.join(sc.dir, "driver.cpp")
         with open(drv, "w") as f:
-            f.write(ekf_driver(d, ns))
+            f.write(ekf_driver(d, ns, cal_per_point))
         exe = os.path.join(sc.dir, "drv")
         ok, err = gxx(sc.dir, [source, drv], exe, extra_flags)
         if not ok:
             return {"ok": False, "stage": "compile", "error": first_error(err), "header": open(header).read()[-1500:]}
-        rc, out, err = run(exe, ekf_input(d, points))
+        rc, out, err = run(exe, ekf_input(d, points, cal_per_point))
         if rc != 0:
             return {"ok": False, "stage": "run", "error": f"exit {rc}: {err[:300]}"}
         return {"ok": True, "results": parse(out), "source_text": open(source).read(), "header_text": open(header).read()}
